@@ -26,6 +26,14 @@ func (c *Ctx) scanObligations(prop string) ([]*Obligation, map[string]interface{
 		out = append(out, obs...)
 		info["typeinv "+ti.Type] = fmt.Sprintf("%d functions scanned; fields %v may be written (and %s allocated) only by %d owner functions", n, ti.Fields, ti.Type, len(ti.Owners))
 	}
+	for _, d := range c.cf.Resets {
+		if d.Prop != prop {
+			continue
+		}
+		ob, rinfo := c.scanReset(d)
+		out = append(out, ob)
+		info["reset "+d.Type] = rinfo
+	}
 	eo, einfo := c.scanEffects(prop)
 	out = append(out, eo...)
 	for k, v := range einfo {
@@ -579,4 +587,124 @@ func hasRecoveringDefer(fn *ssa.Function) bool {
 		}
 	}
 	return false
+}
+
+// scanReset: "no history": every field of Type that the reader functions (and
+// what they statically call) ever load must be written by the reset function
+// (or by what it statically calls), or be reset through a method call on the
+// value stored in it.  The set of fields is computed from the SSA on every run,
+// so a newly introduced look-back field is covered without touching the contract.
+func (c *Ctx) scanReset(d ResetDirective) (*Obligation, string) {
+	ob := &Obligation{Name: "reset." + d.Type + "#frame.complete[" + d.Reset + "]", Kind: "frame.write", Fn: d.Reset, Backend: "ssa-scan", Status: "ok"}
+	ignore := map[string]bool{}
+	for _, f := range d.Ignore {
+		ignore[f] = true
+	}
+	reach := func(roots []string) map[*ssa.Function]bool {
+		seen := map[*ssa.Function]bool{}
+		var work []*ssa.Function
+		for _, r := range roots {
+			if f := c.funcs[r]; f != nil {
+				seen[f] = true
+				work = append(work, f)
+			} else {
+				ob.Status = "failed"
+				ob.Model += "function not found: " + r + "; "
+			}
+		}
+		for len(work) > 0 {
+			f := work[len(work)-1]
+			work = work[:len(work)-1]
+			for _, b := range f.Blocks {
+				for _, in := range b.Instrs {
+					var cc *ssa.CallCommon
+					switch x := in.(type) {
+					case *ssa.Call:
+						cc = x.Common()
+					case *ssa.Defer:
+						cc = x.Common()
+					}
+					if cc == nil {
+						continue
+					}
+					if cal := cc.StaticCallee(); cal != nil && c.inScope(cal) && cal.Pkg == c.pkg && !seen[cal] {
+						seen[cal] = true
+						work = append(work, cal)
+					}
+				}
+			}
+		}
+		return seen
+	}
+	read := map[string]string{}
+	for f := range reach(d.Readers) {
+		for _, b := range f.Blocks {
+			for _, in := range b.Instrs {
+				u, ok := in.(*ssa.UnOp)
+				if !ok || u.Op != token.MUL {
+					continue
+				}
+				// loads of the field itself or of something inside it (array element, sub-field)
+				var addr ssa.Value = u.X
+				for {
+					if ia, ok := addr.(*ssa.IndexAddr); ok {
+						addr = ia.X
+						continue
+					}
+					break
+				}
+				if T, fld, ok := fieldOfLoad(addr); ok && T == d.Type && !ignore[fld] {
+					if _, have := read[fld]; !have {
+						read[fld] = f.RelString(c.tpkg)
+					}
+				}
+			}
+		}
+	}
+	written := map[string]bool{}
+	for f := range reach([]string{d.Reset}) {
+		for _, b := range f.Blocks {
+			for _, in := range b.Instrs {
+				switch x := in.(type) {
+				case *ssa.Store:
+					var addr ssa.Value = x.Addr
+					for {
+						if ia, ok := addr.(*ssa.IndexAddr); ok {
+							addr = ia.X
+							continue
+						}
+						break
+					}
+					if T, fld, ok := fieldOfLoad(addr); ok && T == d.Type {
+						if _, isIdx := x.Addr.(*ssa.IndexAddr); isIdx {
+							continue // writing one element does not reset an array field
+						}
+						written[fld] = true
+					}
+				case *ssa.Call:
+					// x.f.Reset() style: a method call whose receiver is the loaded field
+					if len(x.Call.Args) > 0 && x.Call.StaticCallee() != nil && strings.Contains(x.Call.StaticCallee().Name(), "Reset") {
+						if T, fld, ok := fieldOfLoad(x.Call.Args[0]); ok && T == d.Type {
+							written[fld] = true
+						}
+					}
+				}
+			}
+		}
+	}
+	var missing []string
+	var all []string
+	for fld, where := range read {
+		all = append(all, fld)
+		if !written[fld] {
+			missing = append(missing, fmt.Sprintf("%s (read in %s)", fld, where))
+		}
+	}
+	sort.Strings(missing)
+	sort.Strings(all)
+	if len(missing) > 0 {
+		ob.Status = "failed"
+		ob.Model += d.Reset + " does not reset fields the readers depend on: " + strings.Join(missing, ", ")
+	}
+	return ob, fmt.Sprintf("fields of %s read by %v and their callees: %v; all must be written by %s", d.Type, d.Readers, all, d.Reset)
 }
